@@ -315,6 +315,11 @@ C08_Step(w1, e, w2) ==
         /\ (~w2.hist[i].released => w2.hist[i] = w1.hist[i])
   /\ w2.hub.lastProc >= w1.hub.lastProc
   /\ w2.now >= w1.now
+  \* a claim is consumed (paid) only by a withdrawal, and only when its batch was undelegated a full period ago and is released
+  /\ \A u \in Accts : \A i \in 1..MaxBatch :
+        (w2.wait[u][i] # w1.wait[u][i] /\ (w2.wait[u][i].b < w1.wait[u][i].b \/ w2.wait[u][i].st < w1.wait[u][i].st)) =>
+          /\ Committed(e, "hub", "withdraw_unbonded") /\ e.tx.sender = u
+          /\ i <= Len(w1.hist) /\ w1.hist[i].time + w1.hubPar.unbonding <= w1.now /\ w2.hist[i].released
 
 -----------------------------------------------------------------------------
 \* C09 - holders can always exit; exits do not depend on the reward plumbing
